@@ -43,6 +43,26 @@ func genPlanSrv(t *simrt.Tape, tier string) interface{} {
 		p.Back.Capacity = []int{8, 64, 200}[t.Draw(3)]
 		p.Back.Stalls = []StallS{{AfterBytes: int64(t.Draw(160)), ForMs: []int{5100, 7000, 12000}[t.Draw(3)]}}
 	}
+	if t.Draw(10) == 0 {
+		// template: the same identity logs in on two or three connections of one server at the same
+		// time, under one scheme, with credentials that differ, while the authenticator is slow
+		p.Conf.Full = true
+		sc := []string{"plain", "key", "external"}[t.Draw(3)]
+		p.Conf.Schemes = []string{sc}
+		p.Conf.AuthOut = nil
+		p.Conf.RegOut = 0
+		p.Conf.AuthDelayMs = []int{5, 40, 300}[t.Draw(3)]
+		p.Conf.VanishIn, p.Conf.CloseIn = "", ""
+		p.Faults, p.Back = NoFaults(), NoFaults()
+		from := t.Draw(3)
+		p.Scripts = nil
+		for i := 2 + t.Draw(2); i > 0; i-- {
+			// full servers offer [transport, <scheme>]: choice 1 picks the scheme
+			cr := []int{0, 1, 0, 2}[t.Draw(4)]
+			st := Step{Op: "auto", Choice: 1, From: from, Creds: cr}
+			p.Scripts = append(p.Scripts, []Step{{Op: "auto"}, st, st, st})
+		}
+	}
 	p.Conf.EarlySender = p.Conf.Full && t.Draw(4) == 0
 	p.Conf.AutoPing = p.Conf.Full && t.Draw(3) == 0
 	p.LingerS = []int{5, 70, 200}[t.Draw(3)]
@@ -189,7 +209,67 @@ func containsS(ss []string, x string) bool {
 
 // oracleC03 checks, for every connection, that each observation of an established session
 // is backed by the required authentication and registration.
+// credProj projects an authentication object onto the fields its scheme defines.
+func credProj(scheme string, m map[string]interface{}) string {
+	out := map[string]interface{}{}
+	for _, f := range map[string][]string{"plain": {"password"}, "key": {"key"}, "external": {"token", "issuer"}}[scheme] {
+		if v, ok := m[f]; ok && v != "" {
+			out[f] = v
+		}
+	}
+	return canonJSON(out)
+}
+
+// oracleC03Shared judges a full server with several concurrent connections, where the callbacks
+// cannot be told apart by connection: every established session must be backed by a callback
+// invocation that returned a known role for exactly the identity, scheme and credentials that
+// this peer presented last.
+func oracleC03Shared(w *World, p *PlanSrv, h *History, sut *SUT, nconn int) {
+	sig := func(what string) string {
+		return fmt.Sprintf("%s transport=%s full=%v shared", what, p.Conf.Transport, p.Conf.Full)
+	}
+	for k := 0; k < nconn; k++ {
+		var lastAuthFrame map[string]interface{}
+		for _, e := range h.Of(k, "c-send", "s-frame") {
+			if e.Kind == "c-send" && fstr(e.Frame, "state") == "authenticating" {
+				lastAuthFrame = e.Frame
+			}
+			if e.Kind != "s-frame" || fstr(e.Frame, "state") != "established" {
+				continue
+			}
+			if lastAuthFrame == nil {
+				w.Violate("C03.established-without-authentication", sig("frame"), "connection %d received an established session without having presented any credentials\n%s", k, h.Dump(60))
+				break
+			}
+			sc := fstr(lastAuthFrame, "scheme")
+			if sc == "guest" || sc == "transport" {
+				break // answered by the builder itself, without the recorded callbacks
+			}
+			ca, _ := lastAuthFrame["authentication"].(map[string]interface{})
+			ok := false
+			for _, a := range h.Ev {
+				if a.Kind != "auth" || a.Seq > e.Seq {
+					continue
+				}
+				oc := fstr(a.Frame, "outcome")
+				sa, _ := a.Frame["authentication"].(map[string]interface{})
+				if (oc == "member" || oc == "authority") && fstr(a.Frame, "identity") == identityOf(fstr(lastAuthFrame, "from")) && fstr(a.Frame, "scheme") == sc && credProj(sc, sa) == credProj(sc, ca) {
+					ok = true
+				}
+			}
+			if !ok {
+				w.Violate("C03.established-without-own-authentication", sig("scheme="+sc), "connection %d was established as %s under scheme %s, but the authentication callback never returned a known role for the credentials this peer presented (%s)\n%s", k, identityOf(fstr(lastAuthFrame, "from")), sc, canonJSON(ca), h.Dump(60))
+			}
+			break
+		}
+	}
+}
+
 func oracleC03(w *World, p *PlanSrv, h *History, sut *SUT, nconn int) {
+	if p.Conf.Full && nconn > 1 {
+		oracleC03Shared(w, p, h, sut, nconn)
+		return
+	}
 	offered := sut.Conf.Schemes
 	for k := 0; k < nconn; k++ {
 		var evs []HEvent
